@@ -172,7 +172,7 @@ Fixpoint timer_case (t : timers) (n : N) (steps : list (taction * Z * Z)) (acc :
         (ex && e1, ok && o1, if ex && negb e1 then n else iex, if ok && negb o1 then n else iok,
          N.lor mask (if Z.ltb 0%Z stale then K_STALE_CLEAR else 0%N))
   end.
-Definition timer_diag (c : nat * list (taction * Z * Z)) : list N :=
+Definition timer_diag (c : N * list (taction * Z * Z)) : list N :=
   let '(ex, ok, iex, iok, mask) := timer_case (timers_init (fst c)) 0%N (snd c) (true, true, 0%N, 0%N, 0%N) in
   if negb ok then [2%N; iok; mask] else if ex then [0%N; 0%N; mask] else [1%N; iex; mask].
-Definition timer_diags (cs : list (nat * list (taction * Z * Z))) : list N := flat_map timer_diag cs.
+Definition timer_diags (cs : list (N * list (taction * Z * Z))) : list N := flat_map timer_diag cs.
